@@ -4,6 +4,8 @@ CONSTANTS
   CrashPoints = TRUE
   RollFaults = FALSE
   RollKills = FALSE
+  RoomFaults = FALSE
+  RollDesign = "rename"
   MaxCount = 3
   Limit = 4
   MaxWrite = 6
@@ -17,6 +19,8 @@ CONSTANTS
   FlushFaults = FALSE
   PreTmp = 0
   MaxDumps = 3
+  ListFaults = FALSE
+  DumpDesign = "cleanup-first"
   PreDumps = 5
   MaxIds = 12
 CONSTRAINT Bounded
